@@ -49,16 +49,98 @@ class Interp:
         self.closed = set()
         self.env = {}                 # local name -> poly
         self.problems = []
+        self.violations = []          # (node, message, key): format decisions that depend on the data
         self.endian = {}
+        self.row_vars = set()         # loop variables standing for one row of `constraints`
+        self.row_len = 0              # number of parts of a row (3: add_constraint appends [v, w, y])
+        if module is not None:
+            ac = module.functions.get("add_constraint")
+            if ac is not None:
+                apps = [c_ for c_ in ast.walk(ac.node) if isinstance(c_, ast.Call) and norm(c_.func) == "constraints.append" and c_.args
+                        and isinstance(c_.args[0], (ast.List, ast.Tuple))]
+                if len(apps) == 1:
+                    self.row_len = len(apps[0].args[0].elts)
+        self.buffers = {}             # local name -> "one" (a bytearray) | "many" (a dict of bytearrays keyed by constants)
+        self.exprs = {}               # local name -> expression node (bytes expressions bound to a local: data = bytes([...]))
+        self.env_len = {}
 
     # ---- polynomials of python int expressions
+    def fold(self, node):
+        """copy of `node` with integer sub-expressions over literals and module constants computed
+        ((snarkjsp.bit_length() + 7) // 8 is 32: arithmetic on source literals, nothing is run)"""
+        consts = self.consts
+
+        def ev(n):
+            if isinstance(n, ast.Constant) and isinstance(n.value, int) and not isinstance(n.value, bool):
+                return n.value
+            if isinstance(n, ast.Name) and n.id in consts:
+                return consts[n.id]
+            if isinstance(n, ast.BinOp):
+                a, b = ev(n.left), ev(n.right)
+                if a is None or b is None:
+                    return None
+                try:
+                    if isinstance(n.op, ast.Add): return a + b
+                    if isinstance(n.op, ast.Sub): return a - b
+                    if isinstance(n.op, ast.Mult): return a * b
+                    if isinstance(n.op, ast.FloorDiv) and b != 0: return a // b
+                    if isinstance(n.op, ast.Mod) and b != 0: return a % b
+                    if isinstance(n.op, ast.LShift) and 0 <= b < 4096: return a << b
+                    if isinstance(n.op, ast.RShift) and 0 <= b < 4096: return a >> b
+                except Exception:
+                    return None
+                return None
+            if isinstance(n, ast.Call) and isinstance(n.func, ast.Attribute) and n.func.attr == "bit_length" and not n.args:
+                a = ev(n.func.value)
+                return a.bit_length() if a is not None else None
+            return None
+
+        class _F(ast.NodeTransformer):
+            def generic_visit(self_, n):
+                if isinstance(n, (ast.BinOp, ast.Call)) and not (isinstance(n, ast.BinOp) and isinstance(n.op, ast.Mod)):
+                    v = ev(n)
+                    if v is not None and abs(v) < (1 << 64):
+                        return ast.copy_location(ast.Constant(value=v), n)
+                return super().generic_visit(n)
+        return _F().visit(clone(node))
+
     def poly(self, node, extra=None):
+        node = self.fold(node)
         env = {k: P.sym(v) for k, v in SYM.items()}
         env.update(self.env)
         if extra:
             env.update(extra)
-        calls = {"sum": self._sum_call}
+        calls = {"sum": self._sum_call, "len": self._len_call}
         return poly_of(node, env, calls)
+
+    def _len_call(self, args, rec):
+        # len(<buffer>): the number of bytes collected in it so far
+        if len(args) == 1:
+            key = self.buffer_key(args[0])
+            if key is not None:
+                tot = P()
+                for ev in self.streams.get(key, []):
+                    tot = tot + ev.width
+                return tot
+            t = "len(%s)" % norm(args[0])
+            if t in SYM:
+                return P.sym(SYM[t])
+            if norm(args[0]) in self.env_len:
+                return self.env_len[norm(args[0])]
+            return P.sym(t)
+        return None
+
+    def buffer_key(self, node):
+        """stream key of an in-memory byte buffer expression:  buf  |  bufs[<const>]  |  bytes(buf)"""
+        if isinstance(node, ast.Call) and norm(node.func) in ("bytes", "bytearray", "memoryview") and len(node.args) == 1:
+            return self.buffer_key(node.args[0])
+        if isinstance(node, ast.Name) and node.id in self.buffers and self.buffers[node.id] == "one":
+            return "buf:%s" % node.id
+        if isinstance(node, ast.Subscript) and isinstance(node.value, ast.Name) and self.buffers.get(node.value.id) == "many":
+            k = self.fold(node.slice)
+            if isinstance(k, ast.Constant):
+                return "buf:%s[%r]" % (node.value.id, k.value)
+        return None
 
     def _sum_call(self, args, rec):
         if len(args) == 1 and isinstance(args[0], (ast.ListComp, ast.GeneratorExp)) and len(args[0].generators) == 1:
@@ -113,6 +195,9 @@ class Interp:
             sink.append((fvar, ev))
             return
         fname = self.files.get(fvar)
+        if fname is None and isinstance(fvar, str) and fvar.startswith("buf:"):
+            self.streams.setdefault(fvar, []).append(ev)
+            return
         if fname is None:
             self.problems.append((ev.node, "write to unknown file object `%s`" % fvar))
             return
@@ -120,9 +205,95 @@ class Interp:
             self.problems.append((ev.node, "write to %s after close" % fname))
         self.streams.setdefault(fname, []).append(ev)
 
+    def data_events(self, a, node):
+        """[Ev] for a bytes-valued expression, or None:  little-endian extraction written in place, E.to_bytes(N, 'little'),
+        bytes('literal', ..), a local bound to one of these, the content of an in-memory buffer, concatenations"""
+        if isinstance(a, ast.Name) and a.id in self.exprs:
+            return self.data_events(self.exprs[a.id], node)
+        if isinstance(a, ast.BinOp) and isinstance(a.op, ast.Add):
+            l, r = self.data_events(a.left, node), self.data_events(a.right, node)
+            return None if l is None or r is None else l + r
+        key = self.buffer_key(a)
+        if key is not None:
+            return list(self.streams.get(key, []))
+        le = self._inline_le(a)
+        if le is not None:
+            valnode, widthnode = le
+            self.inline_writers.append((node, valnode, widthnode))
+            return [Ev(self.poly(widthnode), valnode, node)]
+        if isinstance(a, ast.Call) and isinstance(a.func, ast.Attribute) and a.func.attr == "to_bytes" and len(a.args) >= 1:
+            order = a.args[1] if len(a.args) > 1 else next((k.value for k in a.keywords if k.arg == "byteorder"), None)
+            if isinstance(order, ast.Constant) and order.value == "little" and not any(
+                    k.arg == "signed" and not (isinstance(k.value, ast.Constant) and k.value.value is False) for k in a.keywords):
+                self.inline_writers.append((node, a.func.value, a.args[0]))
+                return [Ev(self.poly(a.args[0]), a.func.value, node)]
+            self.problems.append((node, "to_bytes is not little-endian unsigned: %s" % norm(a)[:60]))
+            return None
+        if isinstance(a, ast.Call) and norm(a.func) == "bytes" and a.args and isinstance(a.args[0], ast.Constant) \
+                and isinstance(a.args[0].value, str):
+            return [Ev(P.const(len(a.args[0].value)), a.args[0], node)]
+        if isinstance(a, ast.Constant) and isinstance(a.value, bytes):
+            return [Ev(P.const(len(a.value)), ast.Constant(value=a.value.decode("latin-1")), node)]
+        return None
+
+    @staticmethod
+    def static_test(t):
+        """truth of a test between constants (after a helper's parameters were substituted), else None"""
+        if isinstance(t, ast.UnaryOp) and isinstance(t.op, ast.Not):
+            v = Interp.static_test(t.operand)
+            return None if v is None else not v
+        if isinstance(t, ast.Constant):
+            return bool(t.value)
+        if isinstance(t, ast.Compare) and len(t.ops) == 1 and isinstance(t.left, ast.Constant) and isinstance(t.comparators[0], ast.Constant):
+            a, b, op = t.left.value, t.comparators[0].value, t.ops[0]
+            if isinstance(op, ast.Is):
+                return a is b if (a is None or b is None) else a == b
+            if isinstance(op, ast.IsNot):
+                return a is not b if (a is None or b is None) else a != b
+            if isinstance(op, ast.Eq):
+                return a == b
+            if isinstance(op, ast.NotEq):
+                return a != b
+        return None
+
     def stmt(self, s, sink, subst=None):
         if isinstance(s, ast.FunctionDef):
             return
+        if isinstance(s, (ast.Import, ast.ImportFrom)):
+            return
+        # in-memory buffers:  buf = bytearray() | b""   ;   bufs = defaultdict(bytearray) | {}
+        if isinstance(s, ast.Assign) and len(s.targets) == 1 and isinstance(s.targets[0], ast.Name):
+            v = s.value
+            vt = norm(v).replace(" ", "")
+            if vt in ("bytearray()", "bytes()", "b''", "io.BytesIO()", "BytesIO()"):
+                self.buffers[s.targets[0].id] = "one"
+                self.streams.setdefault("buf:%s" % s.targets[0].id, [])
+                return
+            if vt in ("defaultdict(bytearray)", "collections.defaultdict(bytearray)", "defaultdict(bytes)", "collections.defaultdict(bytes)"):
+                self.buffers[s.targets[0].id] = "many"
+                return
+            if isinstance(v, ast.Call) and (norm(v.func) in ("bytes",) or (isinstance(v.func, ast.Attribute) and v.func.attr == "to_bytes")):
+                self.exprs[s.targets[0].id] = v          # data = bytes([...]) : a local holding the bytes to write
+                return
+        if isinstance(s, ast.AugAssign) and isinstance(s.op, ast.Add):
+            key = self.buffer_key(s.target)
+            if key is not None:
+                evs = self.data_events(s.value, s)
+                if evs is None:
+                    self.problems.append((s, "bytes appended to a buffer not interpretable: %s" % norm(s.value)[:60]))
+                    return
+                for e_ in evs:
+                    if sink is not None:
+                        sink.append((key, e_))
+                    else:
+                        self.streams.setdefault(key, []).append(e_)
+                return
+        if isinstance(s, ast.If):
+            st_ = self.static_test(s.test)
+            if st_ is not None:
+                for b in (s.body if st_ else s.orelse):
+                    self.stmt(b, sink, subst)
+                return
         if isinstance(s, ast.Assign) and isinstance(s.targets[0], ast.Name) and isinstance(s.value, ast.Call) \
                 and norm(s.value.func) == "open" and s.value.args and isinstance(s.value.args[0], ast.Constant):
             self.files[s.targets[0].id] = s.value.args[0].value
@@ -142,6 +313,38 @@ class Interp:
             return
         if isinstance(s, ast.Expr) and isinstance(s.value, ast.Call):
             self.call(s.value, sink, subst or {})
+            return
+        if isinstance(s, ast.For) and any(isinstance(x, ast.Name) and self.buffers.get(x.id) == "many" for x in ast.walk(s.iter)):
+            # the sections written are the keys that happen to exist in the table of buffers
+            keys = sorted(k for k in self.streams if k.startswith("buf:"))
+            self.violations.append((s, "the sections are written from the keys present in `%s`: a section that received no bytes "
+                                       "(e.g. a program without constraints) is left out of the file although the header announces "
+                                       "it" % norm(s.iter), "sections/dynamic"))
+            return
+        if isinstance(s, ast.For) and isinstance(s.iter, ast.BinOp) and isinstance(s.iter.op, ast.Add) and not s.orelse:
+            # for x in A + B + C: BODY   ==   the loop over A, then over B, then over C
+            parts = []
+
+            def flat_(e):
+                if isinstance(e, ast.BinOp) and isinstance(e.op, ast.Add):
+                    flat_(e.left)
+                    flat_(e.right)
+                else:
+                    parts.append(e)
+            flat_(s.iter)
+            for prt in parts:
+                lp_ = ast.For(target=s.target, iter=prt, body=s.body, orelse=[])
+                ast.copy_location(lp_, s)
+                self.stmt(lp_, sink, subst)
+            return
+        if isinstance(s, ast.For) and isinstance(s.iter, ast.Name) and s.iter.id in self.row_vars and isinstance(s.target, ast.Name) and not s.orelse:
+            # for part in c   with c one row of `constraints` (a list [A, B, C], see add_constraint): the three parts in order
+            for j_ in range(self.row_len):
+                alias = {s.target.id: ast.Subscript(value=ast.Name(id=s.iter.id, ctx=ast.Load()), slice=ast.Constant(value=j_), ctx=ast.Load())}
+                for b in s.body:
+                    b2 = _SubstNames(alias).visit(clone(b))
+                    ast.fix_missing_locations(b2)
+                    self.stmt(b2, sink, subst)
             return
         unroll = None
         if isinstance(s, ast.For) and isinstance(s.target, ast.Name):
@@ -194,6 +397,8 @@ class Interp:
             body = []
             inner_sub = dict(subst or {})
             alias = {}
+            if norm(s.iter) == "constraints" and isinstance(s.target, ast.Name) and self.row_len:
+                self.row_vars.add(s.target.id)
             for b in s.body:
                 # loop-local names holding an expression (v2 = val % p; w(v2, 32)) are substituted
                 if isinstance(b, ast.Assign) and len(b.targets) == 1 and isinstance(b.targets[0], ast.Name) \
@@ -255,6 +460,11 @@ class Interp:
             h = self.helpers[f]
             params = [a.arg for a in h.args.args]
             sub = dict(zip(params, c.args))
+            for p_, d_ in zip(params[len(params) - len(h.args.defaults):], h.args.defaults):
+                sub.setdefault(p_, d_)
+            for k_ in c.keywords:
+                if k_.arg in params:
+                    sub[k_.arg] = k_.value
             for b in h.body:
                 self._helper_stmt(b, sink, sub)
             return
@@ -262,6 +472,12 @@ class Interp:
             fvar = norm(c.func.value)
             a = c.args[0] if c.args else None
             le = self._inline_le(a)
+            if le is None and a is not None:
+                evs = self.data_events(a, c)
+                if evs is not None:
+                    for e_ in evs:
+                        self.emit(fvar, e_, sink)
+                    return
             if le is not None:
                 # F.write(bytes([(V >> (i*8)) & 255 for i in range(N)])) written in place (an inlined writer helper)
                 valnode, widthnode = le
@@ -436,6 +652,8 @@ def check(repo, rep, tier):
     _alg(repo, r5, only=(MOD,))
     for node, why in it.problems:
         r2.undecided(fi.loc(node), fi.fq, norm(node)[:100], why)
+    for node, why, key in it.violations:
+        r2.violation(fi.loc(node), fi.fq, norm(node)[:100], why, key)
     for name, (fvar, vp, lp, le, fn) in sorted(it.writers.items()):
         if le:
             r4.ok(fi.loc(fn), fi.fq + "." + name, norm(fn.body[0])[:120], "byte i = (val >> 8i) & 255, i ascending: little-endian")
@@ -589,8 +807,14 @@ def check(repo, rep, tier):
             if e.loop is None:
                 if e.width != P.const(fs):
                     r2.violation(fi.loc(e.node), fi.fq, "width %s" % e.width, "witness value not written in %d bytes" % fs, "wval/width")
-                canonical32(e, "constant-one witness" if norm(e.value) == "1" else "witness value")
-                witness_slots.append(("lit", norm(e.value), P.const(1)))
+                lv_ = it.poly(e.value)
+                lit_txt = str(int(lv_.const_value())) if lv_ is not None and lv_.is_const() and lv_.const_value().denominator == 1 else norm(e.value)
+                if isinstance(e.value, ast.BinOp) and isinstance(e.value.op, ast.Mod) and norm(e.value.right) == modname:
+                    lv2_ = it.poly(e.value.left)          # a literal written through the reducing encoder: c % p
+                    if lv2_ is not None and lv2_.is_const() and 0 <= lv2_.const_value() < p:
+                        lit_txt = str(int(lv2_.const_value()))
+                canonical32(e, "constant-one witness" if lit_txt == "1" else "witness value")
+                witness_slots.append(("lit", lit_txt, P.const(1)))
                 total = total + 1
             else:
                 inner = e.body
@@ -615,6 +839,8 @@ def check(repo, rep, tier):
 
     # ------------------------------------------------------------------ circuit.r1cs
     cs = it.streams["circuit.r1cs"]
+    if len(cs) < 5 and it.violations:
+        return          # the layout depends on the data (reported above): nothing fixed to parse
     if len(cs) < 5:
         raise AnalysisError("circuit stream too short")
     if isinstance(cs[0].value, ast.Constant) and cs[0].value.value == "r1cs":
